@@ -212,6 +212,10 @@ static int URI_FUNC(RemoveBaseUriImpl)(URI_TYPE(Uri) * dest,
 							const URI_TYPE(PathSegment) * baseSeg = absBase->pathHead;
 	/* [19/50]	         bool pathNaked = true; */
 							UriBool pathNaked = URI_TRUE;
+							/* A reference with an empty path would inherit the query
+							 * of the base when resolved, is that acceptable? */
+							const UriBool needsPath = ((absSource->query.first == NULL)
+									&& (absBase->query.first != NULL)) ? URI_TRUE : URI_FALSE;
 	/* [20/50]	         undef(last(Base.path)); */
 							/* NOOP */
 	/* [21/50]	         T.path = ""; */
@@ -222,7 +226,8 @@ static int URI_FUNC(RemoveBaseUriImpl)(URI_TYPE(Uri) * dest,
 							 *       replaces the last segment of the base path */
 							while ((sourceSeg != NULL) && (baseSeg != NULL)
 									&& !URI_FUNC(CompareRange)(&sourceSeg->text, &baseSeg->text)
-									&& ((sourceSeg->next == NULL) == (baseSeg->next == NULL))) {
+									&& ((sourceSeg->next == NULL) == (baseSeg->next == NULL))
+									&& !(needsPath && (sourceSeg->next == NULL))) {
 	/* [23/50]	            A.path++; */
 								sourceSeg = sourceSeg->next;
 	/* [24/50]	            Base.path++; */
@@ -289,6 +294,21 @@ static int URI_FUNC(RemoveBaseUriImpl)(URI_TYPE(Uri) * dest,
 	/* [44/50]	            endif; */
 								/* NOOP */
 	/* [45/50]	         endwhile; */
+							}
+							if (dest->pathHead == NULL) {
+								/* A reference with an empty path resolves to the path
+								 * of the base, is that the path of the source? */
+								const UriBool samePath = ((sourceSeg == NULL) && (baseSeg == NULL)
+										&& (absSource->absolutePath == absBase->absolutePath))
+										? URI_TRUE : URI_FALSE;
+								if (!samePath || needsPath) {
+									/* Source path is empty or "/" at this point */
+									if (absSource->absolutePath || URI_FUNC(IsHostSet)(absSource)) {
+										dest->absolutePath = URI_TRUE;
+									} else {
+										dest->scheme = absSource->scheme;
+									}
+								}
 							}
 	/* [46/50]	      endif; */
 						}
